@@ -62,7 +62,7 @@ _ALLOWED_CONTENT_HEADERS = frozenset(
     ]
 )
 
-_FILENAME_STAR_RFC5987 = re.compile(r"([\w-]+)'[\w]*'(.+)")
+_FILENAME_STAR_RFC5987 = re.compile(r"([\w-]+)'[\w-]*'(.+)")
 
 _CRLF = b'\r\n'
 _CRLF_CRLF = _CRLF + _CRLF
